@@ -551,7 +551,7 @@ where
                 },
                 RichReason::ExpectedFound {
                     expected: mut other_expected,
-                    ..
+                    found: other_found,
                 },
             ) => {
                 // Try to avoid allocations if we possibly can by using the longer vector
@@ -565,7 +565,8 @@ where
                 }
                 RichReason::ExpectedFound {
                     expected: this_expected,
-                    found,
+                    // Prefer the first error's found token, like `merge_expected_found` does
+                    found: found.or(other_found),
                 }
             }
         }
